@@ -136,9 +136,9 @@ class StmtMixin:
         env_vals = self.bind_params(c, pos, kws, node)
         saved_vars = st.vars
         st.vars = {}
+        self.inline_depth += 1
         for n, v in env_vals.items():
             self.assign_var(st, n, v)
-        self.inline_depth += 1
         saved = (self.base_line, self.cur_contract, self.cur_loops)
         from .loops import number_loops
         self.cur_contract, self.cur_loops = c, number_loops(ext.node)
@@ -194,6 +194,16 @@ class StmtMixin:
     def s_Expr(self, stmt, st):
         if isinstance(stmt.value, ast.Constant):
             return [Outcome("normal", st)]
+        if isinstance(stmt.value, ast.Yield):
+            # generator: `yield v` appends v to the ghost sequence _yielded (the sequence of yielded values is the function's result)
+            sink = []
+            outs = []
+            for s, v in self.ev(stmt.value.value, st, sink):
+                cur = self.read_var(s, "_yielded")
+                new = ops.unit(v) if cur.e is None else SV(cur.t, z3.Concat(cur.e, z3.Unit(ops.coerce(v, cur.t.elem).e)))
+                self.store_loc(s, ast.Name(id="_yielded", ctx=ast.Load()), new)
+                outs.append(Outcome("normal", s))
+            return outs + sink
         sink = []
         outs = [Outcome("normal", s) for s, _ in self.ev(stmt.value, st, sink)]
         return outs + sink
